@@ -8,7 +8,8 @@ class C05(Spec):
     lean_deps = ("C01", "C02", "C03")
     required_theorems = ("C05.leafCountKey_roundtrip", "C05.prune_deletes_only_dead", "C05.pruned_parents_dead",
                          "C05.prune_with_stale_entry_deletes_live", "C05.IdxInv_preserved", "C05.IdxInv_preserved_partial",
-                         "C05.IdxInv_preserved_full_false", "C05.retained_state_survives_pruning_partial")
+                         "C05.IdxInv_preserved_full_false", "C05.retained_state_survives_pruning_partial",
+                         "C05.split_groups_keep_more")
     partial = ("C05.IdxInv_preserved_partial", "C05.retained_state_survives_pruning_partial")
     refuted = ("C05.IdxInv_preserved_full_false",)
     level_text = ("Executable Lean model of the pruning machinery (leaf-count index written by SaveNode with the parent chain, "
@@ -30,7 +31,8 @@ class C05(Spec):
                   "Predicate: after every pruning run (store trigger joined through the verif hook, or PruningTree at any height up "
                   "to the tip) and a process restart, every key of the tip and of every current-chain state within the interval is "
                   "readable with its value.")
-    level_note = ("The rule-level and index-level theorems are about abstractions (version lists per key; an index LTS over abstract "
+    level_note = ("Review follow-up: split_groups_keep_more (the deletion rule applied to a contiguous piece of the eligible versions of one key deletes only what it deletes on the whole list: group flushes keep more) is the abstract half of the pruneFirst link; NOT done: no lemma connects pruneFirst (scan order, group flush at 999/10000, first level only) to delRule on a key's full version list (pruneFirst deletes a subset of the union of deletedFor); moveToSecond / pruneSecondNodes / deleteOld have no theorem; IState.saveBlock is an idealised index (drops every entry of height h unconditionally) - IdxInv_preserved is about that LTS, the byte-level functions are tied by the differential run (whole-database digest after every pruning run). PruneSafeFull is a marker, its collision disjunct would have to be located. "
+                  "The rule-level and index-level theorems are about abstractions (version lists per key; an index LTS over abstract "
                   "ids), linked to the byte-level model by sharing `delRule`/`parseLeafCountKey` and by the differential run — the end-to-end "
                   "statement on the byte-level model is kept visible as C05.PruneSafeFull (linear histories, store trigger) and is "
                   "NOT proved; retained_state_survives_pruning_partial composes the ingredients for one pruning run and one retained "
